@@ -116,13 +116,16 @@ func (r *Reader) Read() (seq.Sequence, error) {
 
 func (r *Reader) header(line []byte) (seqio.SequenceAppender, error) {
 	s := r.t.Clone().(seqio.SequenceAppender)
+	// The name ends at the first blank after the prefix; the prefix itself
+	// may contain blanks.
+	line = line[len(r.IDPrefix):]
 	fieldMark := bytes.IndexAny(line, " \t")
 	var err error
 	if fieldMark < 0 {
-		err = s.SetName(string(line[len(r.IDPrefix):]))
+		err = s.SetName(string(line))
 		return s, err
 	} else {
-		err = s.SetName(string(line[len(r.IDPrefix):fieldMark]))
+		err = s.SetName(string(line[:fieldMark]))
 		_err := s.SetDescription(string(line[fieldMark+1:]))
 		if err != nil || _err != nil {
 			switch {
